@@ -650,7 +650,7 @@ std::string EdgeEnv::LookupVariable(StringPiece var) {
   } else if (var == "out") {
     int explicit_outs_count =
         static_cast<int>(edge_->outputs_.size() - edge_->implicit_outs_);
-    return MakePathList(&edge_->outputs_[0], explicit_outs_count, ' ');
+    return MakePathList(edge_->outputs_.data(), explicit_outs_count, ' ');
   }
 
   // Technical note about the lookups_ vector.
